@@ -8,9 +8,10 @@ use bytes::BytesMut;
 use futures::future::BoxFuture;
 use futures::{FutureExt, SinkExt, StreamExt};
 use serde::{Deserialize, Serialize};
-use swimos_agent_protocol::encoding::lane::{ValueLaneRequestDecoder, ValueLaneResponseEncoder};
-use swimos_agent_protocol::{LaneRequest, LaneResponse};
-use swimos_api::agent::{Agent, AgentConfig, AgentContext, AgentInitResult, LaneConfig, WarpLaneKind};
+use swimos_agent_protocol::encoding::lane::{MapLaneRequestDecoder, MapLaneResponseEncoder, ValueLaneRequestDecoder, ValueLaneResponseEncoder};
+use swimos_agent_protocol::encoding::store::{StoreInitializedCodec, ValueStoreInitDecoder, ValueStoreResponseEncoder};
+use swimos_agent_protocol::{LaneRequest, LaneResponse, MapLaneResponse, MapMessage, MapOperation, StoreInitMessage, StoreInitialized, StoreResponse};
+use swimos_api::agent::{Agent, AgentConfig, AgentContext, AgentInitResult, LaneConfig, StoreKind, WarpLaneKind};
 use swimos_api::error::AgentTaskError;
 use swimos_utilities::byte_channel::{ByteReader, ByteWriter};
 use swimos_utilities::routing::RouteUri;
@@ -37,9 +38,23 @@ pub struct FailPlan {
     pub mode: FailMode,
 }
 
+/// W-FAKEAGENT in persistent mode (focus C05F): lane `val` is persistent and is registered first (lane id 0),
+/// `tval` stays transient.
+#[derive(Debug, Clone, Serialize, Deserialize, PartialEq, Eq)]
+pub struct PersistPlan {
+    /// Register the persistent value store `vstore` (store id 0) and write every value commanded on `val` to it
+    /// immediately before `val` itself changes: the same bytes reach the runtime for a store and for a lane whose
+    /// numeric ids coincide.
+    pub mirror_store: bool,
+    /// After this many handled requests the agent registers the persistent map lane `map` (a lane added after
+    /// initialisation); from then on every value commanded on `val` also updates key `value % 3` of `map`.
+    pub late_map_after: Option<u32>,
+}
+
 pub struct FakeAgent {
     pub truth: SharedTruth,
     pub plan: Option<FailPlan>,
+    pub persist: Option<PersistPlan>,
     pub lane_in_buf: usize,
     pub lane_out_buf: usize,
 }
@@ -60,6 +75,7 @@ impl Agent for FakeAgent {
     ) -> BoxFuture<'static, AgentInitResult> {
         let truth = self.truth.clone();
         let plan = self.plan.clone();
+        let persist = self.persist.clone();
         let config = LaneConfig {
             input_buffer_size: std::num::NonZeroUsize::new(self.lane_in_buf.max(1)).unwrap(),
             output_buffer_size: std::num::NonZeroUsize::new(self.lane_out_buf.max(1)).unwrap(),
@@ -68,18 +84,77 @@ impl Agent for FakeAgent {
         async move {
             let mut lanes: Vec<(&'static str, ByteWriter, ByteReader)> = vec![];
             for name in FAKE_LANES {
+                let mut conf = config;
+                if persist.is_some() && name == "val" {
+                    conf.transient = false;
+                }
                 let (tx, rx) = context
-                    .add_lane(name, WarpLaneKind::Value, config)
+                    .add_lane(name, WarpLaneKind::Value, conf)
                     .await
                     .map_err(|_| swimos_api::error::AgentInitError::FailedToStart)?;
                 lanes.push((name, tx, rx));
             }
+            let mut store = if persist.as_ref().map(|p| p.mirror_store).unwrap_or(false) {
+                Some(context.add_store("vstore", StoreKind::Value).await.map_err(|_| swimos_api::error::AgentInitError::FailedToStart)?)
+            } else {
+                None
+            };
+            // Initialisation handshakes of the persistent items happen before the agent task starts (the runtime
+            // waits for them): restored values are taken over, then the item reports that it is initialised.
+            let mut restored_val = 0;
+            let mut restored_vstore = 0;
+            if persist.is_some() {
+                use tokio_util::codec::Decoder;
+                let fail = || swimos_api::error::AgentInitError::FailedToStart;
+                if let Some((name, tx, rx)) = lanes.iter_mut().find(|(n, _, _)| *n == "val").map(|(n, tx, rx)| (*n, tx, rx)) {
+                    let _ = name;
+                    let mut dec = ValueLaneRequestDecoder::<i32>::default();
+                    let mut buf = BytesMut::new();
+                    'init: loop {
+                        loop {
+                            match dec.decode(&mut buf) {
+                                Ok(Some(LaneRequest::Command(v))) => restored_val = v,
+                                Ok(Some(LaneRequest::InitComplete)) => break 'init,
+                                Ok(Some(_)) => {}
+                                Ok(None) => break,
+                                Err(_) => return Err(fail()),
+                            }
+                        }
+                        if tokio::io::AsyncReadExt::read_buf(rx, &mut buf).await.map_err(|_| fail())? == 0 {
+                            return Err(fail());
+                        }
+                    }
+                    let mut b = BytesMut::new();
+                    let _ = tokio_util::codec::Encoder::encode(&mut ValueLaneResponseEncoder::default(), LaneResponse::<i32>::Initialized, &mut b);
+                    tx.write_all(&b).await.map_err(|_| fail())?;
+                }
+                if let Some((tx, rx)) = store.as_mut() {
+                    let mut dec = ValueStoreInitDecoder::<i32>::default();
+                    let mut buf = BytesMut::new();
+                    'sinit: loop {
+                        loop {
+                            match dec.decode(&mut buf) {
+                                Ok(Some(StoreInitMessage::Command(v))) => restored_vstore = v,
+                                Ok(Some(StoreInitMessage::InitComplete)) => break 'sinit,
+                                Ok(None) => break,
+                                Err(_) => return Err(fail()),
+                            }
+                        }
+                        if tokio::io::AsyncReadExt::read_buf(rx, &mut buf).await.map_err(|_| fail())? == 0 {
+                            return Err(fail());
+                        }
+                    }
+                    let mut b = BytesMut::new();
+                    let _ = tokio_util::codec::Encoder::encode(&mut StoreInitializedCodec, StoreInitialized, &mut b);
+                    tx.write_all(&b).await.map_err(|_| fail())?;
+                }
+            }
             rec(
                 &truth,
                 TruthEv::Restored {
-                    val: 0,
+                    val: restored_val,
                     tval: 0,
-                    vstore: 0,
+                    vstore: restored_vstore,
                     tvstore: 0,
                     map: BTreeMap::new(),
                     bmap: BTreeMap::new(),
@@ -89,31 +164,101 @@ impl Agent for FakeAgent {
                 },
             );
             rec(&truth, TruthEv::Start);
-            Ok(fake_task(context, lanes, truth, plan).boxed())
+            Ok(fake_task(context, lanes, store, config, truth, plan, persist, restored_val).boxed())
         }
         .boxed()
     }
 }
 
+enum In {
+    Lane(&'static str, Result<LaneRequest<i32>, ()>),
+    StoreInit(Result<StoreInitMessage<i32>, ()>),
+    Map(Result<LaneRequest<MapMessage<i32, i32>>, ()>),
+}
+
 async fn fake_task(
     context: Box<dyn AgentContext + Send>,
     lanes: Vec<(&'static str, ByteWriter, ByteReader)>,
+    store: Option<(ByteWriter, ByteReader)>,
+    lane_config: LaneConfig,
     truth: SharedTruth,
     plan: Option<FailPlan>,
+    persist: Option<PersistPlan>,
+    restored_val: i32,
 ) -> Result<(), AgentTaskError> {
-    let _context = context;
     let mut writers: HashMap<&'static str, FramedWrite<ByteWriter, ValueLaneResponseEncoder>> = HashMap::new();
     let mut readers = futures::stream::SelectAll::new();
     let mut values: HashMap<&'static str, i32> = HashMap::new();
+    let mut initialized: HashMap<&'static str, bool> = HashMap::new();
     for (name, tx, rx) in lanes {
         writers.insert(name, FramedWrite::new(tx, ValueLaneResponseEncoder::default()));
-        values.insert(name, 0);
+        values.insert(name, if name == "val" { restored_val } else { 0 });
+        // Persistent items were initialised before the task started; a transient lane has no initialisation phase.
+        initialized.insert(name, true);
         let framed = FramedRead::new(rx, ValueLaneRequestDecoder::<i32>::default());
-        readers.push(framed.map(move |r| (name, r)).boxed());
+        readers.push(framed.map(move |r| In::Lane(name, r.map_err(|_| ()))).boxed());
     }
+    // The store: initialisation messages arrive on its reader; afterwards only the writer is used.
+    let mut store_writer: Option<ByteWriter> = None;
+    let mut store_ready = false;
+    let mut _store_reader = None;
+    if let Some((tx, rx)) = store {
+        store_writer = Some(tx);
+        store_ready = true;
+        _store_reader = Some(rx);
+    }
+    let mut store_enc = ValueStoreResponseEncoder::default();
+    let mut map_writer: Option<FramedWrite<ByteWriter, MapLaneResponseEncoder>> = None;
+    let mut map_ready = false;
+    let mut map_state: BTreeMap<i32, i32> = BTreeMap::new();
     let mut handled: u32 = 0;
     let mut failed: Option<&'static str> = None;
-    while let Some((name, req)) = readers.next().await {
+    while let Some(input) = readers.next().await {
+        match input {
+            In::StoreInit(msg) => {
+                match msg {
+                    Ok(StoreInitMessage::Command(_)) => {}
+                    Ok(StoreInitMessage::InitComplete) => {
+                        if let Some(w) = store_writer.as_mut() {
+                            let mut b = BytesMut::new();
+                            let _ = tokio_util::codec::Encoder::encode(&mut StoreInitializedCodec, StoreInitialized, &mut b);
+                            if w.write_all(&b).await.is_ok() {
+                                store_ready = true;
+                            }
+                        }
+                    }
+                    Err(()) => {}
+                }
+                continue;
+            }
+            In::Map(msg) => {
+                match msg {
+                    Ok(LaneRequest::InitComplete) => {
+                        if let Some(w) = map_writer.as_mut() {
+                            let r: MapLaneResponse<i32, i32> = LaneResponse::Initialized;
+                            if w.send(r).await.is_ok() {
+                                map_ready = true;
+                            }
+                        }
+                    }
+                    Ok(LaneRequest::Sync(id)) => {
+                        if let Some(w) = map_writer.as_mut() {
+                            for (k, v) in map_state.iter() {
+                                let r: MapLaneResponse<i32, i32> = LaneResponse::SyncEvent(id, MapOperation::Update { key: *k, value: *v });
+                                let _ = w.send(r).await;
+                            }
+                            let r: MapLaneResponse<i32, i32> = LaneResponse::Synced(id);
+                            let _ = w.send(r).await;
+                        }
+                    }
+                    // Restored entries (initialisation) and commands from remotes are ignored by this script.
+                    _ => {}
+                }
+                continue;
+            }
+            In::Lane(..) => {}
+        }
+        let In::Lane(name, req) = input else { continue };
         if Some(name) == failed {
             continue;
         }
@@ -123,13 +268,37 @@ async fn fake_task(
                 if let Some(w) = writers.get_mut(name) {
                     let _ = w.send(LaneResponse::<i32>::Initialized).await;
                 }
+                initialized.insert(name, true);
+            }
+            LaneRequest::Command(v) if !initialized[name] => {
+                // A restored value (initialisation phase): taken over silently.
+                values.insert(name, v);
             }
             LaneRequest::Command(v) => {
+                if name == "val" {
+                    if let (true, Some(w)) = (store_ready, store_writer.as_mut()) {
+                        // The store first, with the same bytes.
+                        let mut b = BytesMut::new();
+                        let _ = tokio_util::codec::Encoder::encode(&mut store_enc, StoreResponse::new(v), &mut b);
+                        if w.write_all(&b).await.is_ok() {
+                            rec(&truth, TruthEv::Value { item: "vstore", value: v });
+                        }
+                    }
+                }
                 values.insert(name, v);
                 rec(&truth, TruthEv::Value { item: name, value: v });
                 if let Some(w) = writers.get_mut(name) {
                     if w.send(LaneResponse::StandardEvent(v)).await.is_err() {
                         writers.remove(name);
+                    }
+                }
+                if name == "val" && map_ready {
+                    if let Some(w) = map_writer.as_mut() {
+                        let k = v.rem_euclid(3);
+                        map_state.insert(k, v);
+                        rec(&truth, TruthEv::Update { item: "map", key: k.to_string(), value: v });
+                        let r: MapLaneResponse<i32, i32> = LaneResponse::StandardEvent(MapOperation::Update { key: k, value: v });
+                        let _ = w.send(r).await;
                     }
                 }
                 handled += 1;
@@ -144,6 +313,18 @@ async fn fake_task(
                     }
                 }
                 handled += 1;
+            }
+        }
+        // A lane registered after the agent has started.
+        if let Some(after) = persist.as_ref().and_then(|p| p.late_map_after) {
+            if map_writer.is_none() && handled >= after {
+                let mut conf = lane_config;
+                conf.transient = false;
+                if let Ok((tx, rx)) = context.add_lane("map", WarpLaneKind::Map, conf).await {
+                    map_writer = Some(FramedWrite::new(tx, MapLaneResponseEncoder::default()));
+                    let framed = FramedRead::new(rx, MapLaneRequestDecoder::<i32, i32>::default());
+                    readers.push(framed.map(|r| In::Map(r.map_err(|_| ()))).boxed());
+                }
             }
         }
         if let Some(p) = &plan {
